@@ -94,7 +94,10 @@ def check_case(ctx, ds, lname, n, schemes, flags=((True, False), (False, False),
                     ctx.violation('borda-accepts-incomplete-data-with-foreign-scheme', case,
                                   str(c.consensus_rankings), 'ScoringSchemeNotHandledException')
                     continue
-                _ = c.kemeny_score
+                try:
+                    _ = c.kemeny_score   # the lazy score is written once; snapshots are taken after it
+                except Exception:
+                    pass                 # a consensus that cannot be scored is reported by the structural checks below
                 _lib.setdefault('earlier', EarlierResults()).check_and_remember(ctx, ('borda', ubi, reused), c, case)
                 if len(c.consensus_rankings) != 1:
                     ctx.violation('borda-number-of-rankings', case, len(c.consensus_rankings), 1)
